@@ -236,10 +236,7 @@ func runDeny(t *testing.T) {
 					c := denyCase{Kind: "no-compile", Src: f + body, Alt: strings.ReplaceAll(w, "%s", "."), Input: in, Option: opt}
 					direct("deny-matrix", c, "deny/import-does-not-compile/option="+opt)
 				}
-				for _, name := range []string{"\"m\"", "\"./m\"", "\"/etc/passwd\"", ".", "\"\"", "(\"m\", \"n\")", "\"~/.jq\"", "$__prog_name?"} {
-					if strings.HasPrefix(name, "$") {
-						continue
-					}
+				for _, name := range []string{"\"m\"", "\"./m\"", "\"/etc/passwd\"", ".", "\"\"", "(\"m\", \"n\")", "\"~/.jq\""} {
 					src := strings.ReplaceAll(w, "%s", "try ("+name+" | modulemeta) catch \"denied\"")
 					if strings.Contains(w, "path(") || strings.Contains(w, "if . then") || strings.Contains(w, "//") || strings.Contains(w, "s\\(") || strings.Contains(w, "{a:") || strings.Contains(w, "..") {
 						continue // the embedding changes the value: only pass-through embeddings here
@@ -637,7 +634,8 @@ func runVars(t *testing.T) {
 
 	progs := gen.Program(gen.Conf{AltPat: true, AltPatFree: true, Builtins: true, Paths: true, Update: true, MaxNodes: 30})
 	inputs := inputGen(false)
-	plain := gen.Value(gen.Opt{MaxDepth: 2, MaxWidth: 3, SmallInts: true})
+	plain := rapid.SampledFrom([]any{0, 1, 2, 3, -1, 5, 0.5, 1.5, "a", "b", "", "ab", nil, true, false, []any{}, []any{1, 2}, []any{"a"}, []any{[]any{0}, 1}, map[string]any{}, map[string]any{"a": 1},
+		map[string]any{"a": []any{1}, "b": "x"}, []any{map[string]any{"a": 1}}, "é", 10})
 	rec.Rapid(t, "vars-prog", rec.Scale(10000, 500000), func(t *rapid.T) {
 		k := rapid.IntRange(1, 4).Draw(t, "k")
 		names := make([]string, k)
@@ -664,11 +662,7 @@ func runVars(t *testing.T) {
 		}
 		vals := make([]univ.V, nv)
 		for i := range vals {
-			v := plain.Draw(t, "value")
-			if f, ok := v.(float64); ok && (f != f || f > 1e15 || f < -1e15) {
-				v = 0.5
-			}
-			vals[i] = univ.V{X: v}
+			vals[i] = univ.V{X: plain.Draw(t, "value")}
 		}
 		c := varsCase{Names: names, Values: vals, Src: src, Input: univ.V{X: inputs.Draw(t, "input")}}
 		if msg := doVars("vars-prog", c); msg != "" {
@@ -1073,7 +1067,11 @@ func checkInput(c inputCase) inputOutcome {
 	m := &imodel{script: c.Script, fuel: 5000}
 	var want []any
 	merrv := m.eval(c.Prog, c.Input.X, map[int]any{}, func(v any) error { want = append(want, v); return nil })
-	if p, ok := merrv.(*mpass); ok {
+	for {
+		p, ok := merrv.(*mpass)
+		if !ok {
+			break
+		}
 		merrv = p.err
 	}
 	if u, ok := merrv.(*munsup); ok {
